@@ -21,7 +21,8 @@ EXPLANATION = (
     "the same pattern and substitutions, the JSON hooks round-trip pattern, subs and results, and every place that "
     "rebuilds a NamedGlob passes both pattern and subs. Scan flags (recursive, include_hidden, trailing separator "
     "for directories) and the incremental update order (extend, then reduce, on a deep copy). Agreement of the regex "
-    "and glob translations on every pattern and tree is value-level and is NOT claimed."
+    "and glob translations on every pattern and tree is value-level and is NOT claimed. "
+    "Also: every application of a registration's regex to a path (matcher, relevance test, product check) is a fullmatch; the match set of a registration is rewritten by row id."
 )
 ASSUMPTIONS = ["CPython's glob.iglob semantics", "agreement of both translations for all patterns is not decided (see DESIGN.md C17)"]
 
